@@ -942,6 +942,12 @@ def gen_c12_pool(r, deep=0):
     f2 = pick(3)
     ex["oa"] = ["chain", "+", [["*", ["*", r.choice(pl), L(f2[0])], L(f2[1 % len(f2)])], ["*", ["*", L(f2[-1]), r.choice(pl)], L(f2[0])],
                                ["**", ["-", L(f2[0]), ["num", 1.0]], ["num", 2]]]]  # two parameter-weighted bilinear terms
+    # a number on the LEFT of a Parameter (a rate times a price): Python float, or np.float64 as
+    # indexing an array gives it -- then NumPy gets the first say about the product
+    lit = lambda c: [r.choice(["num", "npnum"]), c]  # noqa: E731
+    h2 = pick(2)
+    ex["on"] = ["+", ["*", ["*", lit(r.choice(POS)), r.choice(pl)], L(h2[0])], sq_sum(h2, False)]
+    ex["g6"] = ["-", ["*", lit(r.choice(POS)), r.choice(pl)], L(h2[-1])]
     sp["hess_pref"] = ["o5", "oa", "o2"]
     # constraint bodies (also compiled directly through handles)
     g = pick(2)
@@ -955,6 +961,7 @@ def gen_c12_pool(r, deep=0):
     cons["c2"] = gen_lin_con(r, sp, core)
     cons["c3"] = {"k": "s", "lhs": L(r.choice(core)), "sense": r.choice([">=", "<="]), "rhs": r.choice(pl)}
     cons["c4"] = {"k": "s", "lhs": ["+", ["**", L(core[0]), ["num", 2]], ["*", r.choice(pl), L(core[-1])]], "sense": "<=", "rhs": ["num", r.choice([4.0, 9.0, 25.0])]}
+    cons["c8"] = {"k": "s", "lhs": L(core[0]), "sense": "<=", "rhs": ["+", ["*", lit(2.0), r.choice(pl)], ["num", 4.0]]}
     # coefficients times an explicit vector of parameter-scaled elements: linear in x, parametric
     ve = pick(3)
     ex["ov"] = ["chain", "+", [["lincomb", [r.choice(POS) for _ in ve], ["vexpr", [["*", r.choice(pl), L(n)] for n in ve]]], ["num", r.choice([0.0, 1.5])],
@@ -1002,7 +1009,7 @@ def gen_c12_pool(r, deep=0):
         cons["c6"] = {"k": "s", "lhs": ["*", ["lincomb", [r.choice(POS) for _ in vnames2], vec2], r.choice(pl)], "sense": ">=", "rhs": ["num", r.choice([-3.0, 0.5])]}
     sp["expr_order"] = sorted(ex)
     sp["con_order"] = sorted(cons)
-    meta = {"convex": ["o0"], "lincons": ["c0", "c2", "c3"], "linear": ["o4", "ov"] + (["o6", "o8"] if vhs else []), "linpcons": ["c1", "cv", "cd"] + (["c5", "c6", "c7"] if vhs else [])}
+    meta = {"convex": ["o0"], "lincons": ["c0", "c2", "c3", "c8"], "linear": ["o4", "ov"] + (["o6", "o8"] if vhs else []), "linpcons": ["c1", "cv", "cd"] + (["c5", "c6", "c7"] if vhs else [])}
     return sp, meta
 
 
